@@ -207,6 +207,9 @@ func (u *Universe) runFunc(c *Ctx, p *Path, fr *frame, env0 *SpecEnv, mode runMo
 			lbl := strings.Join(en.Labels, ",")
 			before := len(c.Obligs)
 			q.oblig("post", fmt.Sprintf("%s#post%d[%s]#path%d", fi.Key, ei, lbl, pi), g, fi.Decl.Pos(), en.Labels...)
+			if len(c.Obligs) > before {
+				c.Obligs[len(c.Obligs)-1].RetTerms = q.Ret
+			}
 			if len(c.Obligs) > before && en.Expr.Op == "bin" && en.Expr.Name == "==>" && strings.Contains(g.S, "fp.") {
 				gd := env.evalBool(en.Expr.Args[0])
 				if env.Err == nil && !strings.Contains(gd.S, "fp.") {
